@@ -233,7 +233,8 @@ MORE4 = {
 }
 MORE5 = {
     'C01': " HLP also: each helper class overrides only its own hook.",
-    'C02': " PKW: a schema's primaryKey is stored / deleted only by set_primary_key and by concatenate for its own target.",
+    'C02': " PKW: a schema's primaryKey is stored / deleted only by set_primary_key and by concatenate for its own target. R27 also asks "
+           "the renaming step: update_resource checks a `name` it is given against the package (reported as a known finding).",
     'C04': " SRC: the resource iterator of a sub-flow of sources() is iterated to its end.",
     'C05': " The generic rules also run on validate.py, to_path.py and to_zip.py (observers the property names).",
     'C07': " R16 also: the time / datetime payload carries the microsecond (reported as two known findings).",
